@@ -20,6 +20,18 @@ ENGINES = [
         "kind_free_text": "TLC executes the TLA+ reference EVM (256-bit words as byte limbs, all frame invariants checked in every state) on generated programs x inputs; halmos' symbolic paths are evaluated pointwise at the same inputs and every covering path's end state is compared with the TLC terminal state",
     },
     {
+        "name": "E1-run-contract",
+        "path": "spec/Evm.tla spec/EvmRun.tla harness/artifacts.py harness/testgen.py harness/reftest.py checks/c03.py checks/c04.py",
+        "serves_properties": ["C03", "C04"],
+        "kind_free_text": "hand-assembled Foundry artifacts are run through halmos' run_contract; TLC executes deploy/setUp/test message sequences on the reference EVM and classifies the outcomes",
+    },
+    {
+        "name": "config-model",
+        "path": "spec/Config.tla spec/MC_Config*.cfg harness/config_replay.py checks/c18.py",
+        "serves_properties": ["C18"],
+        "kind_free_text": "TLC checks the precedence/grammar model and enumerates layer stacks and option strings with expected outcomes; all are replayed into halmos' configuration code",
+    },
+    {
         "name": "word-tables",
         "path": "spec/EvmWord.tla spec/EvmWordNat.tla spec/WordRefine.tla spec/WordTable.tla harness/wordops.py harness/progs_ops.py checks/c06.py",
         "serves_properties": ["C06"],
@@ -42,6 +54,20 @@ CHECKS: dict[str, dict] = {
         "note": "Same trusted base as C01; inputs outside the documented assumptions (balances > 2^128) are not generated.",
         "design_ref": "5 C02",
     },
+    "C03": {
+        "engine": "E1-run-contract",
+        "technique": "TLC brute-forces deploy; setUp(); test(args) on the TLA+ reference EVM over designed and boundary argument tuples; verdicts of the real run_contract compared",
+        "text": "Test contracts generated from a grammar of guarded assertion failures are run through halmos' real run_contract (hand-assembled artifacts; yices and z3; both storage layouts; several --panic-error-codes settings). TLC executes deploy; setUp(); test(args) on Evm.tla for one designed tuple per leaf of the decision tree plus a boundary grid and classifies each outcome; a test for which some tuple ends in a configured Panic must not be reported as a clean PASS.",
+        "note": "Checked in the direction the property states (failure reachable => not PASS). Static uint256 parameters; failures are Panic(k) raised directly or bubbled from a nested call (the DSTest fail flag is covered by C13's cheatcode model). Same trusted base as C01.",
+        "design_ref": "5 C03",
+    },
+    "C04": {
+        "engine": "E1-run-contract",
+        "technique": "every counterexample reported by run_contract is replayed by TLC on the TLA+ reference EVM (deploy; setUp; test(model args))",
+        "text": "Each model halmos reports for the generated tests (incl. tests whose conditions go through the mul/div/mod abstractions and need refinement) is decoded to an argument tuple and executed on Evm.tla; a model marked valid must end in the configured assertion failure.",
+        "note": "Static uint256 parameters only; arguments the model does not mention are free (set to 0). Same trusted base as C01.",
+        "design_ref": "5 C04",
+    },
     "C06": {
         "engine": "word-tables",
         "technique": "TLC tabulates every word-level instruction from EvmWord.tla (limb algorithms model-checked against EvmWordNat.tla); tables replayed into HalmosBitVec/HalmosBool and SEVM.run",
@@ -56,9 +82,16 @@ CHECKS: dict[str, dict] = {
         "note": "Same trusted base as C01; created-account addresses compared up to renaming; depth-1024 and gas effects not exercised.",
         "design_ref": "5 C09, 3.3",
     },
+    "C18": {
+        "engine": "config-model",
+        "technique": "TLC enumerates layer stacks / option-value strings from Config.tla (11 design invariants checked); every enumerated case is replayed into halmos' Config, Parse* actions, TOML parser and annotation plumbing",
+        "text": "Config.tla specifies precedence resolution (two equivalent forms), solver-command resolution, the grammars of the structured options with strict/tolerant recognisers, Parse/Unparse and annotation scoping; TLC checks 11 invariants (ResolveIsHighest, LayeringMonotone, RecentWinsAmongEquals, SolverCommandPrecedence, RoundTrip, ScopeLocal ...) and enumerates all stacks of <= 4 (quick) / 5 (thorough) layers over 5 sources and all strings up to length 5 / 6 over the option alphabets with their expected classification; each case is replayed through with_overrides / value_with_source / attribute reads / resolved_solver_command / argparse / TOML / with_devdoc / with_natspec / halmos._main and compared. Eight negative controls (wrong comparison in the resolver, silently defaulting parser, leaking annotation, lossy unparse ...) must be rejected in every run.",
+        "note": "Inputs the documentation does not settle (blanks, empty items, signs, digit groups, nan/inf, exponents ...) are classified lenient and accept either outcome. A bare timeout number is read as milliseconds (code comment + in-repo annotations).",
+        "design_ref": "5 C18, A.5",
+    },
 }
 
-PENDING_REASON = "check not built yet (work in progress; see DESIGN.md section 5)"
+PENDING_REASON ="check not built yet (work in progress; see DESIGN.md section 5)"
 
 
 def build() -> dict:
